@@ -12,6 +12,7 @@ TeX, whose textContent must be the marker string the model predicts and whose
 context stack must be back at its initial depth.  No fault space exists.
 """
 from .. import core
+import os
 
 PID = 'C04'
 
@@ -34,7 +35,7 @@ META = {
                     'by a one-letter marker token; no catcode op inside an argument group; \\gdef writes the bottom frame and '
                     'may be shadowed by a live local definition (lookup yields the innermost live definition)',
                     'no fault space exists for this property (sequential refinement only)'],
-    'probe_names': ['dfs_exhaustive', 'unknown_environment_in_math', 'package_loaded_inside_group', 'user_environment', 'fresh_name_global_in_nesting', 'catalogue_scope', 'catalogue_dimen_spelling', 'catalogue_raise', 'declaration_frame', 'change_after_declaration_restored', 'char_let_shadowed', 'local_def_restored', 'global_def_survives', 'let_restored', 'catcode_restored', 'if_survives', 'counter_survives',
+    'probe_names': ['dfs_exhaustive', 'locals_sweep', 'unknown_environment_in_math', 'package_loaded_inside_group', 'user_environment', 'fresh_name_global_in_nesting', 'catalogue_scope', 'catalogue_dimen_spelling', 'catalogue_raise', 'declaration_frame', 'change_after_declaration_restored', 'char_let_shadowed', 'local_def_restored', 'global_def_survives', 'let_restored', 'catcode_restored', 'if_survives', 'counter_survives',
                     'nested_depth_ge3', 'env_inside_group', 'group_inside_env', 'math_group', 'cell_scope', 'argument_group',
                     'gdef_shadowed', 'catcode_cow_two_frames'],
     'shrink_budget': 400,
@@ -693,6 +694,9 @@ def enumerate_cases(base_seed, tier):
             body = [{'op': 'DEF_GLOBAL', 'name': 'na', 'id': 7}] if what == 'def' else [{'op': 'LET', 'dst': 'na', 'src': 'nb', 'global': True}]
             out.append({'property': PID, 'seed': core.h64('C04-global', j, what), 'swarm': {'transports': ['tex'], 'global_prefix': True},
                         'ops': [{'op': 'OPEN', 'kind': kind}] + body + [{'op': 'PROBE', 'what': 'na'}, {'op': 'CLOSE'}, {'op': 'PROBE', 'what': 'na'}]})
+    for order in LOCALS_ORDERS:
+        out.append({'property': PID, 'seed': core.h64('C04-locals', order), 'swarm': {'transports': ['api'], 'locals': True},
+                    'ops': [{'op': 'LOCALS', 'order': order}]})
     cat = catalogue_ops()
     for j in range(0, len(cat), 12):
         out.append({'property': PID, 'seed': core.h64('C04-cat', j), 'swarm': {'transports': ['tex'], 'catalogue': True}, 'ops': cat[j:j + 12]})
@@ -722,6 +726,8 @@ def execute(record):
         return res
     if record['swarm'].get('catalogue'):
         return execute_catalogue(record, res)
+    if record['swarm'].get('locals'):
+        return execute_locals(record, res)
     ops = balance([o for o in record['ops'] if 'op' in o])
     info, viol, log = {}, [], []
     states = []
@@ -773,6 +779,121 @@ def execute(record):
     res['digest'] = core.hexdigest(ops)
     res['log_digest'] = core.hexdigest(log)
     res['states'] = list(set(states))
+    return res
+
+
+# --------------------------------------------------------------------------
+# local macros of a frame: the frame pushed for an object holds the macro classes nested in the object's class and its
+# bases, the most derived definition winning ("name lookup always yields the innermost live definition") - for EVERY
+# macro class of plasTeX that nests macro classes, whatever classes were used before it in the same interpreter
+
+LOCALS_ORDERS = ['bases-first', 'derived-first', 'alphabetical', 'reverse-alphabetical']
+
+
+def _locals_child(order):
+    import plasTeX
+    from plasTeX import TeXDocument, Macro
+    from .. import lifetimes
+    lifetimes.preimport_all()
+    import sys
+    classes = {}
+    for modname in sorted(sys.modules):
+        if not modname.startswith('plasTeX'):
+            continue
+        mod = sys.modules[modname]
+        for name, obj in sorted(vars(mod).items(), key=lambda kv: kv[0]):
+            if isinstance(obj, type) and issubclass(obj, Macro) and obj.__module__ == modname:
+                classes['%s:%s' % (modname, obj.__qualname__)] = obj
+                for n2, o2 in sorted(vars(obj).items(), key=lambda kv: kv[0]):
+                    if isinstance(o2, type) and issubclass(o2, Macro) and any(isinstance(v, type) and issubclass(v, Macro) for v in vars(o2).values()):
+                        classes['%s:%s' % (modname, o2.__qualname__)] = o2
+
+    def expected(cls):
+        loc = {}
+        for c in reversed(cls.__mro__):
+            for v in list(vars(c).values()):
+                if isinstance(v, type) and issubclass(v, Macro):
+                    loc[getattr(v, 'macroName', None) or v.__name__] = v
+        return loc
+    todo = [(k, c) for k, c in classes.items() if expected(c)]
+    if order == 'bases-first':
+        todo.sort(key=lambda kc: (len(kc[1].__mro__), kc[0]))
+    elif order == 'derived-first':
+        todo.sort(key=lambda kc: (-len(kc[1].__mro__), kc[0]))
+    elif order == 'reverse-alphabetical':
+        todo.sort(key=lambda kc: kc[0], reverse=True)
+    else:
+        todo.sort(key=lambda kc: kc[0])
+    doc = TeXDocument()
+    ctx = doc.context
+    n = 0
+    for key, cls in todo:
+        try:
+            obj = cls()
+            obj.ownerDocument = doc
+        except Exception:
+            continue
+        exp = expected(cls)
+        depth = len(ctx.contexts)
+        ctx.push(obj)
+        try:
+            for name, want in sorted(exp.items()):
+                got = ctx[name]
+                if got is not want:
+                    return {'sig': 'C04|api|locals|%s' % ('inherited-cache' if any(got is v for c in cls.__mro__[1:] for v in vars(c).values()) else 'other'),
+                            'detail': {'class': key, 'name': name, 'got': '%s.%s' % (got.__module__, got.__qualname__),
+                                       'expected': '%s.%s' % (want.__module__, want.__qualname__), 'order': order}}
+        finally:
+            ctx.pop(obj)
+        if len(ctx.contexts) != depth:
+            return {'sig': 'C04|api|depth', 'detail': {'class': key, 'order': order}}
+        n += 1
+    return {'ok': n}
+
+
+def execute_locals(record, res):
+    import pickle
+    viol, log = [], []
+    for op in record['ops']:
+        if op.get('op') != 'LOCALS':
+            continue
+        r, w = os.pipe()
+        pid = os.fork()
+        if pid == 0:
+            try:
+                os.close(r)
+                try:
+                    out = _locals_child(op['order'])
+                except BaseException as e:
+                    import traceback
+                    out = {'error': traceback.format_exc()[-1500:]}
+                os.write(w, pickle.dumps(out))
+            finally:
+                os._exit(0)
+        os.close(w)
+        chunks = []
+        while True:
+            b = os.read(r, 1 << 20)
+            if not b:
+                break
+            chunks.append(b)
+        os.close(r)
+        os.waitpid(pid, 0)
+        out = pickle.loads(b''.join(chunks)) if chunks else {'error': 'no result'}
+        if 'error' in out:
+            raise core.HarnessError('locals sweep failed: %s' % out['error'])
+        log.append([op['order'], out.get('ok'), out.get('sig')])
+        if 'sig' in out:
+            viol.append(out)
+            break
+        res['sub_evaluations'] = res.get('sub_evaluations', 0) + out['ok']
+        res['sub_distinct'] = res.get('sub_distinct', 0) + out['ok']
+    res['violations'] = viol
+    res['probes'] = {'locals_sweep': 1}
+    res['nontrivial'] = True
+    res['steps'] = len(log)
+    res['digest'] = core.hexdigest(record['ops'])
+    res['log_digest'] = core.hexdigest(log)
     return res
 
 
